@@ -23,38 +23,54 @@ type feWalker struct {
 	Fn      *ssa.Function
 	Assume  map[ssa.Value]constant.Value
 	Hook    feHook // optional: decide calls and other opaque values
-	Depth   int    // callee interpretation depth
+	Depth   int    // callee interpretation depth (value-level evalCall)
 	MaxPath int
+	// Inline decides whether a statically resolved first-party callee is
+	// walked as part of the path (so that extracting a helper does not hide
+	// events from a rule). nil: never.
+	Inline  func(callee *ssa.Function, depth int) bool
+	P       *Program // for constant package-level tables (optional)
 	paths   int
 	Ends    []*feEnd
 	Aborted bool
 }
 
-type feState struct {
+type feFrame struct {
+	fn        *ssa.Function
 	prev, cur *ssa.BasicBlock
-	phis      map[*ssa.Phi]constant.Value
-	phiSrc    map[*ssa.Phi]ssa.Value // which incoming value the phi took on this path
+	idx       int
+	call      *ssa.Call // call site in the parent frame
 	visits    map[*ssa.BasicBlock]int
-	trail     []*ssa.BasicBlock
-	trailSeq  []int // value of seq when the block was entered
-	calls     []feCall
-	stores    []feStore
-	free      []condFact // undecided conditions taken on this path
-	mem       map[*ssa.Alloc]feVal // last value stored into local cells on this path
-	loads     map[*ssa.UnOp]feVal  // value a load of a local cell observed on this path
-	seq       int
+}
+
+type feState struct {
+	frames   []*feFrame
+	phis     map[*ssa.Phi]constant.Value
+	phiSrc   map[*ssa.Phi]ssa.Value // which incoming value the phi took on this path
+	trail    []*ssa.BasicBlock
+	trailSeq []int // value of seq when the block was entered
+	calls    []feCall
+	stores   []feStore
+	free     []condFact           // undecided conditions taken on this path
+	mem      map[*ssa.Alloc]feVal // last value stored into local cells on this path
+	loads    map[*ssa.UnOp]feVal  // value a load of a local cell observed on this path
+	bind     map[ssa.Value]feVal  // parameters / free variables of inlined callees, results of inlined calls
+	tuples   map[*ssa.Call][]feVal
+	seq      int
 }
 
 type feStore struct {
 	Store *ssa.Store
 	Val   feVal
 	Seq   int
+	Top   ssa.Instruction // the instruction of the root function under which this happened
 }
 
 type feCall struct {
 	Call ssa.CallInstruction
 	Args []feVal // evaluated at the time of the call (receiver included for static method calls)
 	Seq  int
+	Top  ssa.Instruction
 }
 
 type feEnd struct {
@@ -70,30 +86,46 @@ type feVal struct {
 	Known bool
 }
 
+func newFEState() *feState {
+	return &feState{phis: map[*ssa.Phi]constant.Value{}, phiSrc: map[*ssa.Phi]ssa.Value{}, mem: map[*ssa.Alloc]feVal{},
+		loads: map[*ssa.UnOp]feVal{}, bind: map[ssa.Value]feVal{}, tuples: map[*ssa.Call][]feVal{}}
+}
+
+func (s *feState) top() *feFrame { return s.frames[len(s.frames)-1] }
+
 func (s *feState) clone() *feState {
-	n := &feState{prev: s.prev, cur: s.cur, seq: s.seq,
-		phis: map[*ssa.Phi]constant.Value{}, phiSrc: map[*ssa.Phi]ssa.Value{}, visits: map[*ssa.BasicBlock]int{}}
+	n := newFEState()
+	n.seq = s.seq
+	for _, f := range s.frames {
+		nf := *f
+		nf.visits = map[*ssa.BasicBlock]int{}
+		for k, v := range f.visits {
+			nf.visits[k] = v
+		}
+		n.frames = append(n.frames, &nf)
+	}
 	for k, v := range s.phis {
 		n.phis[k] = v
 	}
 	for k, v := range s.phiSrc {
 		n.phiSrc[k] = v
 	}
-	for k, v := range s.visits {
-		n.visits[k] = v
-	}
 	n.trail = append([]*ssa.BasicBlock{}, s.trail...)
 	n.trailSeq = append([]int{}, s.trailSeq...)
 	n.calls = append([]feCall{}, s.calls...)
 	n.stores = append([]feStore{}, s.stores...)
 	n.free = append([]condFact{}, s.free...)
-	n.mem = map[*ssa.Alloc]feVal{}
 	for k, v := range s.mem {
 		n.mem[k] = v
 	}
-	n.loads = map[*ssa.UnOp]feVal{}
 	for k, v := range s.loads {
 		n.loads[k] = v
+	}
+	for k, v := range s.bind {
+		n.bind[k] = v
+	}
+	for k, v := range s.tuples {
+		n.tuples[k] = v
 	}
 	return n
 }
@@ -106,7 +138,8 @@ func (w *feWalker) Run() []*feEnd {
 	if len(w.Fn.Blocks) == 0 {
 		return nil
 	}
-	st := &feState{cur: w.Fn.Blocks[0], phis: map[*ssa.Phi]constant.Value{}, phiSrc: map[*ssa.Phi]ssa.Value{}, visits: map[*ssa.BasicBlock]int{}, mem: map[*ssa.Alloc]feVal{}, loads: map[*ssa.UnOp]feVal{}}
+	st := newFEState()
+	st.frames = []*feFrame{{fn: w.Fn, cur: w.Fn.Blocks[0], visits: map[*ssa.BasicBlock]int{}}}
 	w.walk(st)
 	return w.Ends
 }
@@ -116,9 +149,39 @@ func (w *feWalker) RunFrom(cur, prev *ssa.BasicBlock) []*feEnd {
 	if w.MaxPath == 0 {
 		w.MaxPath = 4096
 	}
-	st := &feState{cur: cur, prev: prev, phis: map[*ssa.Phi]constant.Value{}, phiSrc: map[*ssa.Phi]ssa.Value{}, visits: map[*ssa.BasicBlock]int{}, mem: map[*ssa.Alloc]feVal{}, loads: map[*ssa.UnOp]feVal{}}
+	st := newFEState()
+	st.frames = []*feFrame{{fn: w.Fn, cur: cur, prev: prev, visits: map[*ssa.BasicBlock]int{}}}
 	w.walk(st)
 	return w.Ends
+}
+
+// inlineHelpers is the standard inlining policy: small first-party functions of
+// the root function's own package, two levels deep.
+func inlineHelpers(root *ssa.Function) func(callee *ssa.Function, depth int) bool {
+	rootPkg := root.Pkg
+	if rootPkg == nil && root.Parent() != nil {
+		rootPkg = root.Parent().Pkg
+	}
+	return func(callee *ssa.Function, depth int) bool {
+		if callee == nil || callee.Blocks == nil || depth > 2 || len(callee.Blocks) > 40 {
+			return false
+		}
+		pk := callee.Pkg
+		if pk == nil && callee.Parent() != nil {
+			pk = callee.Parent().Pkg
+		}
+		if pk == nil && callee.Origin() != nil {
+			pk = callee.Origin().Pkg
+		}
+		return pk != nil && rootPkg != nil && pk == rootPkg
+	}
+}
+
+func (w *feWalker) topInstr(st *feState, in ssa.Instruction) ssa.Instruction {
+	if len(st.frames) > 1 {
+		return st.frames[1].call
+	}
+	return in
 }
 
 func (w *feWalker) walk(st *feState) {
@@ -127,54 +190,60 @@ func (w *feWalker) walk(st *feState) {
 			w.Aborted = true
 			return
 		}
-		b := st.cur
-		st.visits[b]++
-		if st.visits[b] > 2 {
-			w.paths++
-			w.Ends = append(w.Ends, &feEnd{State: st, Cut: true})
-			return
-		}
-		st.trail = append(st.trail, b)
-		st.trailSeq = append(st.trailSeq, st.seq)
-		// phis first
-		for _, in := range b.Instrs {
-			phi, ok := in.(*ssa.Phi)
-			if !ok {
-				break
+		fr := st.top()
+		b := fr.cur
+		if fr.idx == 0 {
+			fr.visits[b]++
+			if fr.visits[b] > 2 {
+				w.paths++
+				w.Ends = append(w.Ends, &feEnd{State: st, Cut: true})
+				return
 			}
-			delete(st.phis, phi)
-			delete(st.phiSrc, phi)
-			if st.prev == nil {
-				continue
-			}
-			for i, p := range b.Preds {
-				if p == st.prev {
-					src := phi.Edges[i]
-					if ps, ok := src.(*ssa.Phi); ok {
-						if s2, ok := st.phiSrc[ps]; ok {
-							src = s2
-						}
-					}
-					st.phiSrc[phi] = src
-					if c, ok := w.eval(st, phi.Edges[i]); ok {
-						st.phis[phi] = c
-					}
+			st.trail = append(st.trail, b)
+			st.trailSeq = append(st.trailSeq, st.seq)
+			// phis first
+			for _, in := range b.Instrs {
+				phi, ok := in.(*ssa.Phi)
+				if !ok {
 					break
+				}
+				delete(st.phis, phi)
+				delete(st.phiSrc, phi)
+				if fr.prev == nil {
+					continue
+				}
+				for i, p := range b.Preds {
+					if p == fr.prev {
+						src := phi.Edges[i]
+						if ps, ok := src.(*ssa.Phi); ok {
+							if s2, ok := st.phiSrc[ps]; ok {
+								src = s2
+							}
+						}
+						st.phiSrc[phi] = src
+						if c, ok := w.eval(st, phi.Edges[i]); ok {
+							st.phis[phi] = c
+						}
+						break
+					}
 				}
 			}
 		}
-		for _, in := range b.Instrs {
+		inlined := false
+		for fr.idx < len(b.Instrs)-1 {
+			in := b.Instrs[fr.idx]
+			fr.idx++
 			switch x := in.(type) {
 			case *ssa.Store:
 				sv := w.evalVal(st, x.Val)
 				st.seq++
-				st.stores = append(st.stores, feStore{x, sv, st.seq})
-				if al, ok := x.Addr.(*ssa.Alloc); ok {
+				st.stores = append(st.stores, feStore{x, sv, st.seq, w.topInstr(st, x)})
+				if al := w.cellOf(st, x.Addr); al != nil {
 					st.mem[al] = sv
 				}
 			case *ssa.UnOp:
 				if x.Op == token.MUL {
-					if al, ok := x.X.(*ssa.Alloc); ok {
+					if al := w.cellOf(st, x.X); al != nil {
 						if mv, ok := st.mem[al]; ok {
 							st.loads[x] = mv
 						} else {
@@ -184,44 +253,100 @@ func (w *feWalker) walk(st *feState) {
 				}
 			case ssa.CallInstruction:
 				st.seq++
-				fc := feCall{Call: x, Seq: st.seq}
+				fc := feCall{Call: x, Seq: st.seq, Top: w.topInstr(st, x)}
 				for _, a := range x.Common().Args {
 					fc.Args = append(fc.Args, w.evalVal(st, a))
 				}
 				st.calls = append(st.calls, fc)
+				call, isCall := x.(*ssa.Call)
+				if !isCall || w.Inline == nil {
+					continue
+				}
+				callee := x.Common().StaticCallee()
+				if callee == nil || callee.Blocks == nil {
+					continue
+				}
+				rec := false
+				for _, f := range st.frames {
+					if f.fn == callee {
+						rec = true
+					}
+				}
+				if rec || !w.Inline(callee, len(st.frames)) {
+					continue
+				}
+				// bind parameters and free variables
+				for i, prm := range callee.Params {
+					if i < len(fc.Args) {
+						st.bind[prm] = fc.Args[i]
+					}
+				}
+				if mc, ok := x.Common().Value.(*ssa.MakeClosure); ok {
+					for i, fv := range callee.FreeVars {
+						if i < len(mc.Bindings) {
+							st.bind[fv] = w.evalVal(st, mc.Bindings[i])
+						}
+					}
+				}
+				st.frames = append(st.frames, &feFrame{fn: callee, cur: callee.Blocks[0], call: call, visits: map[*ssa.BasicBlock]int{}})
+				inlined = true
+			}
+			if inlined {
+				break
 			}
 		}
+		if inlined {
+			continue
+		}
 		term := b.Instrs[len(b.Instrs)-1]
+		fr.idx = 0
 		switch t := term.(type) {
 		case *ssa.Return:
-			end := &feEnd{Term: t, State: st}
+			var results []feVal
 			for _, r := range t.Results {
-				end.Results = append(end.Results, w.evalVal(st, r))
+				results = append(results, w.evalVal(st, r))
 			}
-			w.paths++
-			w.Ends = append(w.Ends, end)
-			return
+			if len(st.frames) == 1 {
+				w.paths++
+				w.Ends = append(w.Ends, &feEnd{Term: t, Results: results, State: st})
+				return
+			}
+			// return into the caller
+			call := fr.call
+			st.frames = st.frames[:len(st.frames)-1]
+			if len(results) == 1 {
+				st.bind[call] = results[0]
+			} else {
+				st.tuples[call] = results
+			}
+			// the caller frame's idx already points past the call; restore "mid-block" marker
+			caller := st.top()
+			if caller.idx == 0 {
+				caller.idx = len(caller.cur.Instrs) // defensive; should not happen
+			}
+			continue
 		case *ssa.Panic:
 			w.paths++
 			w.Ends = append(w.Ends, &feEnd{Term: t, State: st})
 			return
 		case *ssa.Jump:
-			st.prev, st.cur = b, b.Succs[0]
+			fr.prev, fr.cur = b, b.Succs[0]
 		case *ssa.If:
 			if c, ok := w.eval(st, t.Cond); ok && c.Kind() == constant.Bool {
 				if constant.BoolVal(c) {
-					st.prev, st.cur = b, b.Succs[0]
+					fr.prev, fr.cur = b, b.Succs[0]
 				} else {
-					st.prev, st.cur = b, b.Succs[1]
+					fr.prev, fr.cur = b, b.Succs[1]
 				}
 				continue
 			}
 			// fork
 			other := st.clone()
 			other.free = append(other.free, condFact{t.Cond, false})
-			other.prev, other.cur = b, b.Succs[1]
+			of := other.top()
+			of.prev, of.cur, of.idx = b, b.Succs[1], 0
 			st.free = append(st.free, condFact{t.Cond, true})
-			st.prev, st.cur = b, b.Succs[0]
+			fr.prev, fr.cur = b, b.Succs[0]
 			w.walk(st)
 			w.walk(other)
 			return
@@ -234,10 +359,50 @@ func (w *feWalker) walk(st *feState) {
 	}
 }
 
+// cellOf resolves an address to the local cell it denotes: an Alloc, or a
+// free variable / parameter of an inlined callee bound to one.
+func (w *feWalker) cellOf(st *feState, addr ssa.Value) *ssa.Alloc {
+	switch x := addr.(type) {
+	case *ssa.Alloc:
+		return x
+	case *ssa.FreeVar, *ssa.Parameter:
+		if bv, ok := st.bind[x]; ok {
+			if al, ok := bv.V.(*ssa.Alloc); ok {
+				return al
+			}
+		}
+	}
+	return nil
+}
+
 func (w *feWalker) evalVal(st *feState, v ssa.Value) feVal {
 	if u, ok := v.(*ssa.UnOp); ok {
 		if lv, ok := st.loads[u]; ok {
 			return lv
+		}
+	}
+	if bv, ok := st.bind[v]; ok {
+		return bv
+	}
+	if ex, ok := v.(*ssa.Extract); ok {
+		if c, ok := ex.Tuple.(*ssa.Call); ok {
+			if tv, ok := st.tuples[c]; ok && ex.Index < len(tv) {
+				return tv[ex.Index]
+			}
+		}
+	}
+	switch x := v.(type) {
+	case *ssa.ChangeType:
+		inner := w.evalVal(st, x.X)
+		if inner.V != x.X {
+			return inner
+		}
+	case *ssa.MakeInterface:
+		inner := w.evalVal(st, x.X)
+		if inner.V != x.X && inner.V != nil {
+			if _, isConst := inner.V.(*ssa.Const); !isConst {
+				return inner
+			}
 		}
 	}
 	out := feVal{V: v}
@@ -266,6 +431,43 @@ func (w *feWalker) eval(st *feState, v ssa.Value) (constant.Value, bool) {
 	if u, ok := v.(*ssa.UnOp); ok {
 		if lv, ok := st.loads[u]; ok {
 			return lv.C, lv.Known
+		}
+	}
+	if bv, ok := st.bind[v]; ok {
+		if bv.Known {
+			return bv.C, true
+		}
+		if bv.V != nil && bv.V != v {
+			return w.eval(st, bv.V)
+		}
+		return nil, false
+	}
+	if ex, ok := v.(*ssa.Extract); ok {
+		if c, ok := ex.Tuple.(*ssa.Call); ok {
+			if tv, ok := st.tuples[c]; ok && ex.Index < len(tv) {
+				if tv[ex.Index].Known {
+					return tv[ex.Index].C, true
+				}
+				if tv[ex.Index].V != nil && tv[ex.Index].V != v {
+					return w.eval(st, tv[ex.Index].V)
+				}
+				return nil, false
+			}
+		}
+		if lk, ok := ex.Tuple.(*ssa.Lookup); ok {
+			if val, found, ok := w.constTableLookup(st, lk); ok {
+				if ex.Index == 1 {
+					return constant.MakeBool(found), true
+				}
+				if val != nil {
+					return val, true
+				}
+			}
+		}
+	}
+	if lk, ok := v.(*ssa.Lookup); ok && !lk.CommaOk {
+		if val, _, ok := w.constTableLookup(st, lk); ok && val != nil {
+			return val, true
 		}
 	}
 	switch x := v.(type) {
@@ -307,6 +509,12 @@ func (w *feWalker) eval(st *feState, v ssa.Value) (constant.Value, bool) {
 		b, okb := w.eval(st, x.Y)
 		if oka && okb {
 			return foldBin(x.Op, a, b)
+		}
+		// nil tests on values that an inlined callee returned (or that were already tested on this path)
+		if tv, trueWhenNonNil, ok := nilCheck(x); ok {
+			if nn, known := w.nilness(st, tv, 0); known {
+				return constant.MakeBool(nn == trueWhenNonNil), true
+			}
 		}
 		if w.Hook != nil {
 			return w.Hook(w, st, v)
@@ -366,7 +574,7 @@ func (w *feWalker) evalCall(st *feState, c *ssa.Call) (constant.Value, bool) {
 			}
 		}
 	}
-	sub := &feWalker{Fn: callee, Assume: assume, Hook: w.Hook, Depth: w.Depth + 1, MaxPath: 256}
+	sub := &feWalker{Fn: callee, Assume: assume, Hook: w.Hook, Depth: w.Depth + 1, MaxPath: 256, P: w.P}
 	ends := sub.Run()
 	if sub.Aborted || len(ends) == 0 {
 		return nil, false
@@ -509,4 +717,89 @@ func switchTags(fn *ssa.Function, typ types.Type) []ssa.Value {
 		out = append(out, tag)
 	})
 	return out
+}
+
+// constTableLookup folds a lookup in a package-level map that is initialised by
+// a composite literal of constants and never written: m[k] with k known.
+func (w *feWalker) constTableLookup(st *feState, lk *ssa.Lookup) (val constant.Value, found bool, ok bool) {
+	if w.P == nil {
+		w.P = curProg
+	}
+	if w.P == nil {
+		return nil, false, false
+	}
+	u, isLoad := lk.X.(*ssa.UnOp)
+	if !isLoad {
+		return nil, false, false
+	}
+	g, isG := u.X.(*ssa.Global)
+	if !isG || g.Pkg == nil {
+		return nil, false, false
+	}
+	k, kok := w.eval(st, lk.Index)
+	if !kok {
+		return nil, false, false
+	}
+	tbl, tok := w.P.constTable(g)
+	if !tok {
+		return nil, false, false
+	}
+	e, has := tbl[k.ExactString()]
+	if !has {
+		// zero value of the element type
+		mt, _ := g.Type().Underlying().(*types.Pointer)
+		if mt != nil {
+			if m, ok := mt.Elem().Underlying().(*types.Map); ok {
+				if b, ok := m.Elem().Underlying().(*types.Basic); ok {
+					switch {
+					case b.Info()&types.IsInteger != 0:
+						return constant.MakeInt64(0), false, true
+					case b.Info()&types.IsString != 0:
+						return constant.MakeString(""), false, true
+					case b.Info()&types.IsBoolean != 0:
+						return constant.MakeBool(false), false, true
+					}
+				}
+			}
+		}
+		return nil, false, true
+	}
+	return e, true, true
+}
+
+// curProg is the program currently analysed (set by runProps); walkers use it for constant tables.
+var curProg *Program
+
+// nilness: is v known nil / non-nil on this path? Resolves values returned by
+// inlined callees and reuses nil tests already taken on the path.
+func (w *feWalker) nilness(st *feState, v ssa.Value, depth int) (nonNil bool, known bool) {
+	if depth > 4 {
+		return false, false
+	}
+	rv := w.evalVal(st, v).V
+	if rv == nil {
+		return false, false
+	}
+	if isNilConst(rv) {
+		return false, true
+	}
+	switch x := stripTypeOnly(rv).(type) {
+	case *ssa.Alloc, *ssa.MakeMap, *ssa.MakeSlice, *ssa.MakeClosure, *ssa.Function:
+		return true, true
+	case *ssa.Call:
+		if isErrorType(x.Type()) && isErrorCtor(x) {
+			return true, true
+		}
+	}
+	if _, ok := rv.(*ssa.MakeInterface); ok {
+		return true, true
+	}
+	for _, f := range st.free {
+		if x, nn, ok := nilCheck(f.Cond); ok && x != nil {
+			if x == rv || (x != v && w.evalVal(st, x).V == rv && rv != x) {
+				return nn == f.Truth, true
+			}
+		}
+	}
+	return false, false
 }
